@@ -48,6 +48,10 @@ EDITS = [
     ("end type hoisted into a local in DoGroupOffset", O, "\tif (group.end_type == EndType::Polygon)\n\t{\n\t\t// a straight path", "\tconst EndType group_end_type = group.end_type;\n\tif (group_end_type == EndType::Polygon)\n\t{\n\t\t// a straight path"),
     ("Z result variable renamed in IntersectEdges", E, None, "resultOp->zOp"),
     ("null test written as == nullptr in BuildPath64", E, "    if (!op || op->next == op || (!isOpen && op->next == op->prev))\n      return false;\n\n    path.resize(0);\n    Point64 lastPt;\n    OutPt* op2;\n    if (reverse)\n    {\n      lastPt = op->pt;\n      op2 = op->prev;\n    }\n    else\n    {\n      op = op->next;\n      lastPt = op->pt;\n      op2 = op->next;\n    }\n    path.emplace_back(lastPt);", "    if (op == nullptr || op->next == op || (!isOpen && op->next == op->prev))\n      return false;\n\n    path.resize(0);\n    Point64 lastPt;\n    OutPt* op2;\n    if (reverse)\n    {\n      lastPt = op->pt;\n      op2 = op->prev;\n    }\n    else\n    {\n      op = op->next;\n      lastPt = op->pt;\n      op2 = op->next;\n    }\n    path.emplace_back(lastPt);"),
+    ("delta of Minkowski computed with an if", H + "clipper.minkowski.h", "      size_t delta = isClosed ? 0 : 1;", "      size_t delta = 1;\n      if (isClosed) delta = 0;"),
+    ("fill-rule branches of the offset clean-up swapped", O, "\t\tif (paths_reversed)\n\t\t\tc.Execute(ClipType::Union, FillRule::Negative, *solution);\n\t\telse\n\t\t\tc.Execute(ClipType::Union, FillRule::Positive, *solution);", "\t\tif (!paths_reversed)\n\t\t\tc.Execute(ClipType::Union, FillRule::Positive, *solution);\n\t\telse\n\t\t\tc.Execute(ClipType::Union, FillRule::Negative, *solution);"),
+    ("locals renamed in IntersectEdges", E, None, "old_e1_windcnt->prev_wc1"),
+    ("hot test hoisted into a local in DoTopOfScanbeam", E, "          if (IsHotEdge(*e)) AddOutPt(*e, e->top);\n          UpdateEdgeIntoAEL(e);", "          const bool is_hot = IsHotEdge(*e);\n          if (is_hot) AddOutPt(*e, e->top);\n          UpdateEdgeIntoAEL(e);"),
     ("abs via std::llabs in the open toggle", E, "      if (abs(edge_c->wind_cnt) != 1) return;\n      switch (cliptype_)", "      if (std::abs(edge_c->wind_cnt) != 1) return;\n      switch (cliptype_)"),
 ]
 
